@@ -366,6 +366,17 @@ pub fn encode_retirement(sector: u64, blocks: u64, complete: bool) -> Vec<u8> {
     d
 }
 
+/// One retirement-marker block claiming `remaining` blocks from `sector` on.
+pub fn encode_retirement_block(sector: u64, remaining: u64, complete: bool) -> Vec<u8> {
+    let mut d = vec![0u8; BLOCK];
+    d[..8].copy_from_slice(DELETED_TAG);
+    d[8..16].copy_from_slice(&remaining.to_le_bytes());
+    d[18] = complete as u8;
+    let t = marker_token(sector, &d[..19]);
+    d[16..18].copy_from_slice(&t.to_le_bytes());
+    d
+}
+
 /// Legacy (v1/v2 releases) deletion marker: tag followed by zeros.
 pub fn encode_legacy_marker() -> Vec<u8> {
     let mut d = vec![0u8; BLOCK];
